@@ -199,7 +199,7 @@ def shape_overflow(h: Hist, big: bool):
     """15/16/17/20/33 ids in one bucket, refresh of the oldest just before overflow"""
     rng = h.rng
     idx = rng.choice([5, 6, 7, 8, 12, 20, 31, 100, 200, 254, 255])
-    n = rng.choice([15, 16, 17, 17, 20, 33])
+    n = min(rng.choice([15, 16, 17, 17, 20, 33]), 1 << idx)      # bucket idx has only 2^idx ids
     toks = []
     while len(toks) < n:
         t = h.in_bucket(idx, low_random=rng.random() < 0.5)
@@ -250,7 +250,7 @@ def shape_refresh(h: Hist, big: bool):
 def shape_expiry(h: Hist, big: bool):
     """a full bucket whose entries expire, then new registrations (prune before evict), sweeps"""
     rng = h.rng
-    idx = rng.choice([4, 5, 9, 30, 128, 255])
+    idx = rng.choice([5, 6, 9, 30, 128, 255])
     toks = []
     while len(toks) < 16:
         t = h.in_bucket(idx, low_random=rng.random() < 0.5)
@@ -392,7 +392,7 @@ def spec() -> Spec:
         generate=generate,
         extract=extract,
         nontrivial=nontrivial,
-        budget={"quick": 1200, "thorough": 30000},
+        budget={"quick": 5000, "thorough": 60000},
         rule="random histories of init/reg/add/adv/sweep/buckets/closest against the real KademliaTable under the virtual clock: "
              "random, all-zero and all-one local ids; contacts aimed at chosen bucket indices (0,1,7,8,...,254,255 and random: ids "
              "sharing 0..255-bit prefixes with the local id); 15/16/17/20/33 ids in one bucket; refreshes with new address/TTL "
